@@ -21,7 +21,7 @@ ASSUMPTIONS = ["thresholds are the ones the property states: attenuation <= -40 
                ">= 90 % of its high-passed, re-aligned amplitude on its peak channel", "a 'few neighbouring channels' = the 7 nearest sites with a Gaussian footprint of sigma 0.4-0.7 site pitches (retention falls "
                "smoothly with footprint width: measured 0.94-0.97 in that range, 0.89-0.91 at sigma 1.0-1.3, which is no longer 'a few channels')", "grouped filters are compared with per-group calls using default padding on both sides"]
 REQUIRED = {"default_header_checked": 2, "labels_true_checked": 2, "labels_true_with_bad_channels": 2, "stripe_attenuations": 8, "spike_retentions": 8, "outside_checked": 6, "car_zero_reference": 10, "group_equals_separate": 20,
-            "agc_products": 20, "referencing_through_destripe": 16, "settings_through_destripe": 4}
+            "agc_products": 20, "referencing_through_destripe": 16, "settings_through_destripe": 4, "lfp_forwarding_checked": 3}
 CASE_TIMEOUT = 120.0
 KINDS = ["3B2", "NP2.1", "NP2.4", "NPultra"]
 
@@ -133,6 +133,23 @@ def run_case(case):
             att = GS.db(GS.rms(out[:, sl]), GS.rms(ref[:, sl]))
             res.measure("worst_lfp_stripe_attenuation_db", att)
             res.check(att <= -40.0, "destripe_lfp:stripe-attenuation", f"{label}: stripe attenuated by {att:.1f} dB only", counter="stripe_attenuations")
+            # the wrapper hands its arguments on: labels (outside-brain channels excluded and left untouched), the caller's temporal filter, the
+            # choice of spatial filter - the result is what destripe gives for the same arguments
+            xs = st[:, :6000] + 20e-6 * rng.standard_normal((st.shape[0], 6000))
+            labels = np.zeros(xs.shape[0])
+            labels[xs.shape[0] - int(rng.integers(2, 30)):] = 3
+            bk = {"N": int(rng.integers(2, 5)), "Wn": [float(rng.uniform(0.3, 2)), float(rng.uniform(150, 400))], "btype": "bandpass", "fs": fsl}
+            kf = bool(rng.integers(0, 2))
+            a = V.destripe_lfp(xs.copy(), fsl, h=h, channel_labels=labels.copy(), butter_kwargs=dict(bk), k_filter=kf)
+            b_ = V.destripe(xs.copy(), fsl, h=h, channel_labels=labels.copy(), butter_kwargs=dict(bk), k_filter=kf)
+            e = np.max(np.abs(a - b_)) / np.max(np.abs(b_))
+            res.check(e <= 1e-12, "destripe_lfp:arguments-not-forwarded", f"{label}: destripe_lfp(channel_labels, butter_kwargs={bk}, k_filter={kf}) differs from destripe with the "
+                      f"same arguments by {e:.3g}", counter="lfp_forwarding_checked")
+            sosb = scipy.signal.butter(**bk, output="sos")
+            refo = F.fshift(scipy.signal.sosfiltfilt(sosb, xs), h["sample_shift"], axis=1)
+            e = np.max(np.abs(a[labels == 3] - refo[labels == 3])) / np.max(np.abs(refo))
+            res.check(e <= 1e-9, "destripe_lfp:outside-touched", f"{label}: outside-brain channels were modified by the spatial filter of destripe_lfp (rel diff {e:.3g})",
+                      counter="outside_checked")
             sigs.add((kind, "lfp"))
         except Exception as e:
             res.exception("destripe_lfp:exception", e, label)
